@@ -223,6 +223,12 @@ def run(ctx):
                 if marker is not None and marker.startswith("\x00"):
                     bad = "line %d: %s" % (e[3] + 1, marker[1:])
                     break
+                if e[4] > len(raw):
+                    bad = "the diagnostic %r reports columns %d-%d of line %d, which has only %d characters: the marker is under nothing" % (title, e[4] + 1, e[5] + 1, e[3] + 1, len(raw))
+                    break
+                if title.startswith("Labels not defined: ") and raw[e[4]:e[5] + 1] not in [n.strip() for n in title.split(": ", 1)[1].split(",")]:
+                    bad = "%r is shown with the marker under %r (line %d of %s): not one of the labels it is about" % (title, raw[e[4]:e[5] + 1], e[3] + 1, name)
+                    break
                 fnw = next((i for i, c in enumerate(raw) if ord(c) not in WS), 0)
                 carets = [i + fnw for i, c in enumerate(marker or "") if c == "^"]
                 wantcar = list(range(e[4], e[5] + 1))
